@@ -102,12 +102,11 @@ theorem agreement (v sp : Bytes) (n : Nat) (h8 : 8 ≤ v.length)
   · simp only [h1, not_false_eq_true, if_true, Res.ok.injEq, Prod.mk.injEq, reduceCtorEq, and_false] at hl
 
 /-- what `ErrFor` means on the wire: the error encodes to a 9-byte exception ADU with the frame's
-transaction id, protocol id 0, length 3, the frame's unit id, function code + 0x80 and code 1 or 3 -/
+transaction id, protocol id 0, length 3, the frame's unit id, function code + 0x80 and code 3 -/
 theorem errFor_bytes (v : Bytes) (e : PErr) (h : ErrFor v e) :
-    ∃ c, (c = 1 ∨ c = 3) ∧ e.bytes = some (put16 (be16 (v.getD 0 0) (v.getD 1 0)) ++ [0, 0] ++ put16 3 ++
-      [v.getD 6 0, v.getD 7 0 + 128, c]) := by
-  obtain ⟨c, hc, rfl⟩ := h
-  exact ⟨c, hc, rfl⟩
+    e.bytes = some (put16 (be16 (v.getD 0 0) (v.getD 1 0)) ++ [0, 0] ++ put16 3 ++
+      [v.getD 6 0, v.getD 7 0 + 128, 3]) := by
+  rw [h]; rfl
 
 /-- (3) unsupported function codes (non-zero, header otherwise plausible) are classified together with the
 matching illegal-function exception -/
